@@ -225,3 +225,24 @@ package atree
 //@        as(l, *ArrayDataSlab).elements, as(l, *ArrayDataSlab).header, as(r, *ArrayDataSlab).elements, as(r, *ArrayDataSlab).header,
 //@        as(l, *ArrayMetaDataSlab).childrenHeaders, as(l, *ArrayMetaDataSlab).childrenCountSum, as(l, *ArrayMetaDataSlab).header,
 //@        as(r, *ArrayMetaDataSlab).childrenHeaders, as(r, *ArrayMetaDataSlab).childrenCountSum, as(r, *ArrayMetaDataSlab).header
+
+//@ # merging two adjacent children: allowed when neither could lend; the merged node fits (C05 merge lemma is the requires on sizes)
+//@ func (a *ArrayMetaDataSlab) mergeChildren(storage, l, r, li, ri) (err)  serves C01 C03 C05 C06 C09
+//@   requires storage != nil && wfMeta0(a) && metaLinked(a) && 0 <= li && ri == li + 1 && ri < len(a.childrenHeaders)
+//@   requires isArr(l) && isArr(r) && sameKind(l, r) && l == sto[a.childrenHeaders[li].slabID] && r == sto[a.childrenHeaders[ri].slabID] && nodeWF(l) && nodeWF(r)
+//@   requires (forall k :: 0 <= k && k < len(a.childrenHeaders) && k != li && k != ri ==> a.childrenHeaders[k].count >= 1)
+//@   requires a.childrenHeaders[li].count + a.childrenHeaders[ri].count >= 1 && hdrOf(l).count + hdrOf(r).count <= 4294967295
+//@   requires minThreshold + ite(is(l, *ArrayDataSlab), 21, 12) <= hdrOf(l).size + hdrOf(r).size && hdrOf(l).size + hdrOf(r).size - ite(is(l, *ArrayDataSlab), 21, 12) <= maxThreshold
+//@   ensures err != nil ==> categorised(err)
+//@   ensures[C06] err == nil ==> wfMeta(a) && a.header.count == old(a.header.count) && a.header.slabID == old(a.header.slabID) && a.header.size == old(a.header.size) - 14
+//@   ensures[C01] err == nil ==> len(a.childrenHeaders) == len(old(a.childrenHeaders)) - 1 &&
+//@        (forall k :: 0 <= k && k < li ==> a.childrenHeaders[k] == old(a.childrenHeaders)[k]) &&
+//@        (forall k :: li < k && k < len(a.childrenHeaders) ==> a.childrenHeaders[k] == old(a.childrenHeaders)[k + 1])
+//@   ensures[C01] err == nil ==> a.childrenHeaders[li].count == old(a.childrenHeaders)[li].count + old(a.childrenHeaders)[ri].count && a.childrenHeaders[li].slabID == old(a.childrenHeaders)[li].slabID
+//@   ensures[C05] err == nil ==> hdrBand(a.childrenHeaders[li]) && nodeWF(l)
+//@   ensures[C09] err == nil ==> sto[old(a.childrenHeaders)[ri].slabID] == nil && sto[a.header.slabID] == a && distinctChildren(a)
+//@   ensures[C09] err == nil ==> agree(a)
+//@   ensures[C03] err == nil ==> has(stored, a) && has(stored, l)
+//@   modifies a.childrenHeaders, a.childrenCountSum, a.header, ghost.sto, ghost.stored, ghost.touched, alloc,
+//@        as(l, *ArrayDataSlab).elements, as(l, *ArrayDataSlab).header, as(l, *ArrayDataSlab).next,
+//@        as(l, *ArrayMetaDataSlab).childrenHeaders, as(l, *ArrayMetaDataSlab).childrenCountSum, as(l, *ArrayMetaDataSlab).header
